@@ -382,7 +382,7 @@ CHECKS['C05'] = {
     'assumptions': ['path clauses are non-empty and patterns do not end in a lone backslash (PutPathString and GetPathDepth count empty clauses differently; exercised only under C07)'],
     'targets': [
         {'name': 'c05_routing', 'src': ['harness/C05_routing.cpp'], 'quick_n': 300000, 'thorough_n': 2400000, 'maxlen': 300, 'min_nontrivial': 5000, 'budget': 120,
-         'class_floors': {'mode_routing': 100000, 'mode_traversal': 100000, 'case_two_keys_of_equal_depth': 50000, 'case_keys_of_different_depths': 20000, 'case_with_filters': 10000, 'case_key_mixing_literal_and_wildcard_levels': 20000, 'case_keyless_message_after_default_route_was_replaced': 500, 'case_malformed_key_before_a_valid_one': 500, 'case_with_child_count_filter': 1000}},
+         'class_floors': {'mode_routing': 100000, 'mode_traversal': 100000, 'case_two_keys_of_equal_depth': 50000, 'case_keys_of_different_depths': 20000, 'case_with_filters': 10000, 'case_key_mixing_literal_and_wildcard_levels': 20000, 'case_keyless_message_after_default_route_was_replaced': 500, 'case_malformed_key_before_a_valid_one': 500, 'case_with_child_count_filter': 1000, 'case_traversal_with_filtered_keys': 10000, 'case_node_selected_by_a_later_key_after_an_earlier_keys_filter_refused': 500}},
     ],
 }
 
